@@ -850,6 +850,7 @@ theorem C06_direction_sys (s : Sys.Sys F) (e : Sys.Ev) (hr : RangeInv s) (j : Na
     | .setCfg _ => l' = l
     | .crit _ => l' = l
     | .failNext _ => l' = l
+    | .failAfter _ _ => l' = l
     | .failBind _ => l' = l
     | .stamp _ _ _ _ _ => l'.core = l.core
     | .syncTimeout => l'.core = l.core
@@ -873,6 +874,7 @@ theorem C06_direction_sys (s : Sys.Sys F) (e : Sys.Ev) (hr : RangeInv s) (j : Na
   | setCfg cfg => rw [show (Sys.step s (.setCfg cfg)).1.links = s.links from rfl, hl] at hl'; exact (Option.some.inj hl').symm
   | crit d => rw [show (Sys.step s (.crit d)).1.links = s.links from rfl, hl] at hl'; exact (Option.some.inj hl').symm
   | failNext cid => rw [show (Sys.step s (.failNext cid)).1.links = s.links from rfl, hl] at hl'; exact (Option.some.inj hl').symm
+  | failAfter cid kfa => rw [show (Sys.step s (.failAfter cid kfa)).1.links = s.links from rfl, hl] at hl'; exact (Option.some.inj hl').symm
   | failBind cid => rw [show (Sys.step s (.failBind cid)).1.links = s.links from rfl, hl] at hl'; exact (Option.some.inj hl').symm
   | stamp idx weak ld ccb cct => exact stamp_core s idx weak ld ccb cct j l l' hl hl'
   | syncTimeout => exact sync_core s j l l' hl hl'
@@ -1259,6 +1261,10 @@ theorem C06_fast_recovery_sys (s : Sys.Sys F) (e : Sys.Ev) (hnr : e.isReload = f
     rw [show (Sys.step s (.failNext cid)).1.links = s.links from rfl, hl] at hl'
     have e' : l'.core.cong = l.core.cong := by rw [Option.some.inj hl']
     exact same e'
+  | failAfter cid kfa =>
+    rw [show (Sys.step s (.failAfter cid kfa)).1.links = s.links from rfl, hl] at hl'
+    have e' : l'.core.cong = l.core.cong := by rw [Option.some.inj hl']
+    exact same e'
   | failBind cid =>
     rw [show (Sys.step s (.failBind cid)).1.links = s.links from rfl, hl] at hl'
     have e' : l'.core.cong = l.core.cong := by rw [Option.some.inj hl']
@@ -1363,6 +1369,7 @@ theorem C06_direction_run (s : Sys.Sys F) (pre : List Sys.Ev) (e : Sys.Ev)
     | .setCfg _ => l' = l
     | .crit _ => l' = l
     | .failNext _ => l' = l
+    | .failAfter _ _ => l' = l
     | .failBind _ => l' = l
     | .stamp _ _ _ _ _ => l'.core = l.core
     | .syncTimeout => l'.core = l.core
